@@ -22,7 +22,7 @@ def civilOfCfg (c : Cfg) : Civil :=
   { year := c 5, month := c 4, day := c 3, hour := c 2, minute := c 1, second := c 0 }
 
 /-- enough fuel for every start (`Proofs/CronFuel.lean`); one unit = one validation pass -/
-def csmFuel : Nat := ((((2262 * 13 + 12) * 32 + 31) * 24 + 23) * 60 + 59) * 60 + 59 + 1
+def csmFuel : Nat := ((((3940 * 13 + 12) * 32 + 31) * 24 + 23) * 60 + 59) * 60 + 59 + 1
 
 /-- one `newCSMFromFields(wall).NextTriggerTime`: `none` = out of fuel, `some none` = exhausted -/
 def csmNext (lim : Limits) (f : Fields) (wall : Civil) : Option (Option Civil) :=
